@@ -258,7 +258,12 @@ and gen_block st (env : genv) (t : ty) (d : int) ~(nil_ok : bool) : item list * 
           (0, ps, gen_ty st 1)) in
       let names = ref [] in
       let sigs = List.map (fun (_, ps, ret) ->
-          let x = pick_name st !env !names in names := x :: !names; (x, ps, ret)) sigs in
+          (* consecutive function items are one run (declared together before any body is checked):
+             a function that follows another function item must not reuse a name the earlier
+             bodies may already refer to *)
+          let after_func = (match !items with IFunc _ :: _ -> true | _ -> false) in
+          let x = if after_func then fresh st else pick_name st !env !names in
+          names := x :: !names; (x, ps, ret)) sigs in
       List.iter (fun (x, ps, ret) ->
           env := add !env { nm = x; t = TFun (List.map snd ps, ret); k = 0; flags = Some (List.map fst ps) }) sigs;
       List.iter (fun (x, ps, ret) ->
